@@ -1,6 +1,8 @@
 pub(crate) mod config;
 mod info;
 pub(crate) mod socket;
+#[cfg(mainline_verif)]
+pub(crate) mod verif_actor;
 
 use std::collections::HashMap;
 use std::collections::HashSet;
@@ -432,6 +434,8 @@ pub fn run(config: Config, receiver: Receiver<ActorMessage>) {
                         ActorMessage::ToBootstrap(sender) => {
                             let _ = sender.send(actor.to_bootstrap());
                         }
+                        #[cfg(mainline_verif)]
+                        ActorMessage::Verif(verif_actor::VerifFn(f)) => f(&mut actor),
                     },
                     Err(TryRecvError::Disconnected) => {
                         // Node was dropped, kill this thread.
@@ -483,6 +487,8 @@ pub(crate) enum ActorMessage {
     Get(GetRequestSpecific, ResponseSender),
     Check(Sender<Result<(), std::io::Error>>),
     ToBootstrap(Sender<Vec<String>>),
+    #[cfg(mainline_verif)]
+    Verif(verif_actor::VerifFn),
 }
 
 #[derive(Debug, Clone)]
